@@ -36,6 +36,7 @@ func runC38(c *Ctx) {
 				if !ok {
 					continue
 				}
+				c.fnOfObj(meth) // registers the method as analysed (evidence)
 				fn := c.P.SSAFunc(meth)
 				if fn == nil || fn.Blocks == nil {
 					c.Undecided(funcName(meth)+"/ssa", "method has a body", "-", "no SSA body")
